@@ -377,7 +377,7 @@ theorem below_stepA {L : Lang} {n : Nat} (hbind : BindA L n) : BelowA L (n+1) :=
           · exact RelA.ok a2
         · exact RelA.ok a2
 
-theorem bind_stepA {L : Lang} {n : Nat} (habove : AboveA L n) (hbelow : BelowA L n) : BindA L (n+1) := by
+theorem bind_stepA {L : Lang} {n : Nat} (hunify : UnifyA L n) : BindA L (n+1) := by
   intro S τ τ' v t a hv ht
   cases t with
   | var tv =>
@@ -391,12 +391,12 @@ theorem bind_stepA {L : Lang} {n : Nat} (habove : AboveA L n) (hbelow : BelowA L
       · have aB := agree_bindVarStore a hv htv
         apply RelA.bind
         · split
-          · exact habove S _ _ tv _ aB htv
+          · exact hunify S _ _ _ _ aB (termIn_base _) ht
           · exact RelA.ok aB
         · intro τ1 τ1' a1
           apply RelA.bind
           · split
-            · exact hbelow S _ _ tv _ a1 htv
+            · exact hunify S _ _ _ _ a1 ht (termIn_base _)
             · exact RelA.ok a1
           · intro τ2 τ2' a2
             exact relA_check a2 L n v
@@ -545,7 +545,7 @@ theorem all_agree (L : Lang) : ∀ n,
     · intro S τ τ' vs ps pl _ _; rw [fixList, fixList]; exact RelA.err _ _
   | n+1 => by
     obtain ⟨h1, h2, h3, h4, h5, h6, h7⟩ := all_agree L n
-    exact ⟨unify_stepA h2 h3 h4 h5, unifyList_stepA h1 h2, bind_stepA h4 h5,
+    exact ⟨unify_stepA h2 h3 h4 h5, unifyList_stepA h1 h2, bind_stepA h1,
       above_stepA h3, below_stepA h3, fix_stepA h3 h7, fixList_stepA h6 h7⟩
 
 end Tfv.C16P
